@@ -91,6 +91,13 @@ static void case_c06(const args_t *a, long c, rng_t *r)
 	char tdir[4096]; snprintf(tdir, sizeof tdir, "%s/sort-%ld", a->workdir, c); mkdir(tdir, 0700);
 	pthread_mutex_lock(&mk_mu); snprintf(mk_expect_dir, sizeof mk_expect_dir, "%s", tdir); mk_count = 0; mk_outside = 0; pthread_mutex_unlock(&mk_mu);
 	mclos_t mc; memset(&mc, 0, sizeof mc); mc.universe = &uni;
+	/* failing merge function (only where the sorter can report it: no worker threads): if no call reports failure, nothing may be missing */
+	int failing = 0; size_t fail_want = 0;
+	if (poolsz <= 0 && adds.n > want.n && rndn(r, 12) == 0) {
+		size_t cand = 0, nc = 0;
+		for (size_t i = 0; i + 1 < flat.n; i++) if (key_cmp(flat.e[i].k.p, flat.e[i].k.n, flat.e[i + 1].k.p, flat.e[i + 1].k.n) == 0 && rndn(r, (uint32_t)++nc) == 0) cand = i;
+		if (nc) { failing = 1; mc.have_fail = 1; mc.fail_key = flat.e[cand].k.p; mc.fail_len = flat.e[cand].k.n; fail_want = model_lb(&want, mc.fail_key, mc.fail_len); outmode = 0; }
+	}
 	struct mtbl_threadpool *pool = poolsz >= 0 ? mtbl_threadpool_init(poolsz) : NULL;
 	struct mtbl_sorter_options *so = mtbl_sorter_options_init();
 	mtbl_sorter_options_set_temp_dir(so, tdir);
@@ -103,8 +110,12 @@ static void case_c06(const args_t *a, long c, rng_t *r)
 	/* adds, with the spill-deadline monitor */
 	uint64_t since = 0, seen = 0, maxbuf = 0;
 	int synchronous = poolsz <= 0;       /* no worker threads: a spill happens inside add */
+	int failure_reported = 0;
 	for (size_t i = 0; i < adds.n; i++) {
-		if (mtbl_sorter_add(s, adds.e[i].k.p, adds.e[i].k.n, adds.e[i].v.p, adds.e[i].v.n) != mtbl_res_success) { viol("C06/add-refused-before-iteration", "mtbl_sorter_add #%zu returned failure", i); break; }
+		if (mtbl_sorter_add(s, adds.e[i].k.p, adds.e[i].k.n, adds.e[i].v.p, adds.e[i].v.n) != mtbl_res_success) {
+			if (failing && mc.failures_returned) { failure_reported = 1; STAT("c06.failing_merge.reported_by_add"); break; }
+			viol("C06/add-refused-before-iteration", "mtbl_sorter_add #%zu returned failure", i); break;
+		}
 		since += adds.e[i].k.n + adds.e[i].v.n;
 		if (synchronous) {
 			uint64_t now = mk_read();
@@ -121,6 +132,40 @@ static void case_c06(const args_t *a, long c, rng_t *r)
 	/* output */
 	const model_t *model = &want;
 	struct mtbl_iter *it = NULL;
+	if (failing) {
+		/* either some call reports the failure, or the output must be complete and correct apart from nothing at all */
+		if (!failure_reported) {
+			it = mtbl_sorter_iter(s);
+			if (!it) { failure_reported = 1; STAT("c06.failing_merge.reported_by_sorter_iter"); }
+			else {
+				const uint8_t *k, *v; size_t lk, lv, i = 0;
+				while (mtbl_iter_next(it, &k, &lk, &v, &lv) == mtbl_res_success) {
+					if (i >= want.n || key_cmp(k, lk, want.e[i].k.p, want.e[i].k.n) != 0 || lv != want.e[i].v.n || memcmp(v, want.e[i].v.p, lv) != 0) {
+						viol("C06/output-differs-after-unreported-merge-failure", "merge function failed %" PRIu64 " time(s) for key %s, no call reported failure, yet output entry %zu is key %s (%zu value bytes) where key %s (%zu bytes) is expected", mc.failures_returned, hexs(mc.fail_key, mc.fail_len), i, hexs(k, lk), lv, i < want.n ? hexs(want.e[i].k.p, want.e[i].k.n) : "<end>", i < want.n ? want.e[i].v.n : 0);
+						break;
+					}
+					i++;
+				}
+				if (i < want.n) {
+					if (i == fail_want && mc.failures_returned) { failure_reported = 1; STAT("c06.failing_merge.reported_by_next_at_the_key"); }
+					else if (mc.failures_returned) viol("C06/output-differs-after-unreported-merge-failure", "iteration ended after %zu of %zu keys (merge failure was for key index %zu)", i, want.n, fail_want);
+					else viol("C06/next-fails-but-entry-expected", "iteration ended after %zu of %zu keys", i, want.n);
+				}
+			}
+		}
+		STAT("c06.failing_merge.cases");
+		mtbl_iter_destroy(&it);
+		mtbl_sorter_destroy(&s);
+		if (pool) mtbl_threadpool_destroy(&pool);
+		size_t left2 = count_dir(tdir);
+		if (left2) viol("C06/temp-files-left-behind", "%zu files left in the sorter temp dir after a failing merge", left2);
+		rmdir(tdir);
+		pthread_mutex_lock(&mk_mu); mk_expect_dir[0] = 0; pthread_mutex_unlock(&mk_mu);
+		STAT("c06.sorts");
+		case_hash(model_hash(&adds) ^ 0xfa11);
+		model_free(&adds); model_free(&flat); model_free(&want); model_free(&uni);
+		return;
+	}
 	if (outmode == 3) {
 		char out[4200]; snprintf(out, sizeof out, "%s/out.mtbl", a->workdir); unlink(out);
 		struct mtbl_writer *w = mtbl_writer_init(out, NULL);
